@@ -3,6 +3,8 @@
 package naga
 
 import (
+	"fmt"
+
 	"github.com/gogpu/naga/glsl"
 	"github.com/gogpu/naga/hlsl"
 	"github.com/gogpu/naga/internal/zzclike"
@@ -200,6 +202,58 @@ func ZZ_C16_interface_struct_names() {
 	text, _, err := hlsl.Compile(mod, hlsl.DefaultOptions())
 	zz.Assert(err == nil, "HLSL backend rejected the program")
 	d := zzclike.HLSL
+	prog, perr := zzclike.Parse(text, d)
+	zz.Assert(perr == "", "emitted text is outside the reference grammar: "+perr)
+	if perr != "" {
+		return
+	}
+	for _, dup := range prog.Dups {
+		zz.Fail("emitted text redefines a name (user identifier clashes with a generated one): " + dup)
+	}
+	zz.Reach("end")
+}
+
+// Third shape: the predeclared float helpers. A user function called like the helper that
+// the writer emits for modf / frexp, with the helper's parameter list, in a program that uses
+// the builtin: the emitted text must not define one signature twice (checked on the parsed
+// text; the float helpers themselves are not executed).
+func ZZ_C16_float_helper_names() {
+	name := []string{"naga_modf", "naga_frexp", "plain"}[zz.Choice("name", 3)]
+	backend := zz.Choice("backend", 3)
+	zz.Cell(fmt.Sprintf("float-helper/%s/%d", name, backend))
+	src := "fn " + name + "(x: f32) -> f32 { return x * 2.0; }\n" +
+		"@group(0) @binding(0) var<storage, read_write> s: array<f32, 8>;\n" +
+		"@compute @workgroup_size(1) fn main() {\n" +
+		"  let m = modf(s[0]);\n  let f = frexp(s[1]);\n" +
+		"  s[2] = m.fract + f.fract + " + name + "(s[3]);\n}\n"
+	ast, err := Parse(src)
+	zz.Assert(err == nil, "program does not parse")
+	if err != nil {
+		return
+	}
+	mod, err := LowerWithSource(ast, src)
+	zz.Assert(err == nil, "program does not lower")
+	if err != nil {
+		return
+	}
+	var text string
+	var d zzclike.Dialect
+	switch backend {
+	case 0:
+		t, _, err := hlsl.Compile(mod, hlsl.DefaultOptions())
+		zz.Assert(err == nil, "HLSL backend rejected the program")
+		text, d = t, zzclike.HLSL
+	case 1:
+		t, _, err := msl.Compile(mod, msl.DefaultOptions())
+		zz.Assert(err == nil, "MSL backend rejected the program")
+		text, d = t, zzclike.MSL
+	default:
+		o := glsl.DefaultOptions()
+		o.LangVersion = glsl.Version430
+		t, _, err := glsl.Compile(mod, o)
+		zz.Assert(err == nil, "GLSL backend rejected the program")
+		text, d = t, zzclike.GLSL
+	}
 	prog, perr := zzclike.Parse(text, d)
 	zz.Assert(perr == "", "emitted text is outside the reference grammar: "+perr)
 	if perr != "" {
